@@ -48,6 +48,7 @@ class _Prog:
 
 
 SYM = H.part("VF_SYM", 0)     # which capture group is the symbolic digit string
+_LINE_RUN = [0]
 
 
 def decode_line(x: str, idx: int, has_c: bool, matches: bool) -> bool:
@@ -77,7 +78,8 @@ def decode_line(x: str, idx: int, has_c: bool, matches: bool) -> bool:
         groups = (a, b, c if has_c else None)
     else:
         groups = (a, word)
-    line = "the line"
+    _LINE_RUN[0] += 1
+    line = "the line of run %d" % _LINE_RUN[0]       # unique per explored path (see h_track.fresh_lines)
     with H.patched((cls, "_regex_prog", _Prog(groups, matches))):
         try:
             d = cls.from_chart_line(line)
